@@ -264,6 +264,15 @@ class Deployment:
     def joker_for(self, op):
         if op.get("joker", "main") == "main":
             return self.joker
+        if str(op.get("joker")).startswith("chain:"):
+            # a named TheJoker that lives across several ops (its own pool and generator, created on first use)
+            if not hasattr(self, "chains"):
+                self.chains = {}
+            name = op["joker"]
+            if name not in self.chains:
+                op2 = dict(op, joker="fresh")
+                self.chains[name] = self.joker_for(op2)
+            return self.chains[name]
         cfg = self.program["config"]
         pool = self.make_pool(op.get("pool", cfg.get("pool", {"kind": "sim", "size": 2})), self.program.get("faults"))
         rng = recgen.make(op.get("rng_seed", cfg.get("rng_seed", 0)), self.record, label="parent@%s" % op.get("id"))
